@@ -78,6 +78,10 @@ func TestCheck(t *testing.T) {
 			surplusCase(ctx, rep, rng, cfg)
 			return
 		}
+		if idx%8 == 3 {
+			workflowSkipCase(ctx, rep, rng, cfg)
+			return
+		}
 		mode := []gspec.Mode{gspec.DAG, gspec.Workflow, gspec.Pregel}[idx%3]
 		spec := gspec.Gen(rng, genOpts(rng, cfg, mode))
 		streamify(rng, spec)
@@ -97,22 +101,16 @@ func everyValueConsumed(spec *gspec.GraphSpec, ref *gspec.RefResult) (bool, stri
 		return true, ""
 	}
 	ran := func(k string) bool { return k == gspec.END || k == gspec.START || ref.Ran[k] }
-	for _, e := range spec.Edges {
-		if e.NoData || !ran(e.From) {
-			continue
-		}
-		if !ran(e.To) {
-			return false, "value-for-skipped-node"
-		}
-	}
-	// a node that ran must hand its value to at least one consumer
+	// a node that ran must hand its value to at least one consumer that runs. A copy the engine makes
+	// for a data successor that a branch then skips is a stream "the framework created internally":
+	// closing it is the framework's business, the value itself has its consumer.
 	for k := range ref.Ran {
 		if k == gspec.END {
 			continue
 		}
 		has := false
 		for _, e := range spec.Edges {
-			if e.From == k && !e.NoData {
+			if e.From == k && !e.NoData && ran(e.To) {
 				has = true
 			}
 		}
